@@ -113,8 +113,23 @@ Proof.
 Qed.
 
 Theorem purity_singular_values n M sv :
-  is_csvd n M sv -> purity_s ROps n M = purity_sv n sv /\ purity_i ROps n M = purity_sv n sv.
+  is_csvd n M sv -> frob2 ROps n M <> 0 ->
+  rsum n (fun k => sv k * sv k) <> 0 /\ purity_s ROps n M = purity_sv n sv /\ purity_i ROps n M = purity_sv n sv.
 Proof.
-  intros H. destruct (csvd_power_sums n M sv H) as (E2 & E4i & E4s).
+  intros H HF. assert (H0 : rsum n (fun k => sv k * sv k) <> 0) by (destruct (csvd_power_sums n M sv H) as (E2 & _); rewrite <- E2; exact HF).
+  split; [exact H0|]. clear HF H0. destruct (csvd_power_sums n M sv H) as (E2 & E4i & E4s).
   rewrite purity_s_unfold, purity_i_unfold, E2, E4i, E4s. split; reflexivity.
+Qed.
+
+(* non-vacuity with a genuinely two-dimensional complex factorisation: [[0, 2i], [3, 0]] = U diag(2, 3) V^dagger,
+   U = diag(i, 1), V = the swap *)
+Example csvd_example_2 :
+  is_csvd 2 (fun s i => if Nat.eqb s i then (0, 0) else if Nat.eqb s 0 then (0, 2) else (3, 0)) (fun k => if Nat.eqb k 0 then 2 else 3).
+Proof.
+  exists (fun s k => if Nat.eqb s k then (if Nat.eqb s 0 then (0, 1) else (1, 0)) else (0, 0)),
+         (fun i k => if Nat.eqb i k then (0, 0) else (1, 0)).
+  unfold unitary_cols, csum, gcsum. repeat split; intros;
+  repeat match goal with
+  | H : (?x < 2)%nat |- _ => (destruct x as [|[|?]]; [| |lia]); clear H
+  end; cbn; apply injective_projections; cbn; lra.
 Qed.
